@@ -116,3 +116,17 @@ class Shapes:
 
     def bin(self, opname, lhs, rhs):
         return self.mk(self.ops(opname), None, None, lhs, rhs)
+
+
+def metacommand(I, name):
+    """The Metacommand record registered under `name` (folds the metacommands module on first use)."""
+    I.module_env("metacommands")
+    table = I.module_get("metacommand_impl", "metacommands")
+    if name not in table:
+        from ..engine.loader import Unknown
+        raise Unknown(f"directive {name} is not registered")
+    return table[name]
+
+
+def metacommand_fn(I, name):
+    return metacommand(I, name).fields["fn"]
